@@ -1626,3 +1626,352 @@ func ruleRELOADEVERYPATH(p *Program, rep *Report) {
 		}
 	}
 }
+
+// ruleTRUNCATEKEEPSPREVIOUS (C16, C01): the two headers describe the last two committed states; a damaged newest
+// header makes Open fall back to the older one, whose pages must still be in the file.  The commit therefore
+// may only truncate the file to a size that also covers the PREVIOUS state — the end markers snapshotted when
+// the transaction began (txAllocArea.endMarker) —, never to what the new state alone needs: at the point of
+// the truncate the allocator already holds the new markers (allocator.Commit ran).
+func ruleTRUNCATEKEEPSPREVIOUS(p *Program, rep *Report) {
+	rep.Rule("TRUNCATE-KEEPS-PREVIOUS", 1, "the size a commit truncates the file to (File.truncate below tryCommitChanges) depends on the end markers snapshotted at transaction begin (txAllocArea.endMarker = extent of the previously committed state): the state the older header describes stays in the file until one more commit has passed")
+	root := p.Method("txfile", "Tx", "tryCommitChanges")
+	fTruncate := p.Method("txfile", "File", "truncate")
+	txEnd := p.FieldVar("txfile", "txAllocArea", "endMarker")
+	reach := staticReach(p, root)
+	n := 0
+	for _, fn := range sortedFns(reach) {
+		if fnPkgPath(fn) != modPath {
+			continue
+		}
+		for _, b := range fn.Blocks {
+			for _, ins := range b.Instrs {
+				c, ok := ins.(ssa.CallInstruction)
+				if !ok || c.Common().StaticCallee() != fTruncate || len(c.Common().Args) < 2 {
+					continue
+				}
+				n++
+				rep.Analysed(funcName(fn))
+				key := funcName(fn) + "|File.truncate"
+				sl := &slicer{p: p, fields: map[*types.Var]bool{}, seen: map[sliceKey]bool{}, within: reach}
+				sl.walk(c.Common().Args[1], 0, nil, 0)
+				if sl.fields[txEnd] {
+					rep.OK("TRUNCATE-KEEPS-PREVIOUS", key, p.InstrPos(ins), "size depends on the end markers of the previous state")
+				} else {
+					rep.Bad("TRUNCATE-KEEPS-PREVIOUS", key, p.InstrPos(ins), "the commit truncates the file to a size that does not depend on the end markers snapshotted at transaction begin (txAllocArea.endMarker): the file is cut to what the NEW state needs in the very commit that released the tail pages — if the new header is then damaged, Open falls back to the older header whose pages are no longer in the file")
+				}
+			}
+		}
+	}
+	if n == 0 {
+		rep.Unknown("TRUNCATE-KEEPS-PREVIOUS", "anchor", "", "no File.truncate below tryCommitChanges (anchor lost)")
+	}
+}
+
+// pqFieldOwner: name of the pq struct type declaring field f ("" if none).
+func pqFieldOwner(p *Program, f *types.Var) string {
+	if p.pqOwners == nil {
+		p.pqOwners = map[*types.Var]string{}
+		scope := p.PQ.Pkg.Scope()
+		for _, name := range scope.Names() {
+			tn, ok := scope.Lookup(name).(*types.TypeName)
+			if !ok {
+				continue
+			}
+			st, ok := tn.Type().Underlying().(*types.Struct)
+			if !ok {
+				continue
+			}
+			for i := 0; i < st.NumFields(); i++ {
+				if _, dup := p.pqOwners[st.Field(i)]; !dup {
+					p.pqOwners[st.Field(i)] = name
+				}
+			}
+		}
+	}
+	return p.pqOwners[f]
+}
+
+// ruleREADSTARTAGREE (C17, C06): three places decide where the un-ACKed part of the queue starts — the reader
+// when it initialises its cursor, Queue.Pending and the acker (queueRange): the persisted read position if
+// there is one, else the head.  They have to decide it by the same criterion, or counters (Pending/Active)
+// and what a reopened Reader delivers (Available, re-delivery of ACKed events) disagree.  Sibling agreement
+// on the set of position / cursor / reader-state fields the selecting condition depends on.
+func ruleREADSTARTAGREE(p *Program, rep *Report) {
+	rep.Rule("READ-START-AGREE", 2, "every function of package pq that chooses between the persisted read position (queuePage.read) and the head (queuePage.head) decides by a condition over the same fields of the parsed position / cursor / reader state as its siblings (in this code base: whether the read position's page is set)")
+	parse := p.Method("pq", "access", "ParsePosition")
+	fRead := p.FieldVar("pq", "queuePage", "read")
+	fHead := p.FieldVar("pq", "queuePage", "head")
+	type sel struct {
+		fn  *ssa.Function
+		dom string
+		pos string
+	}
+	var sels []sel
+	for _, fn := range p.SrcFuncs() {
+		if fnPkgPath(fn) != modPath+"/pq" {
+			continue
+		}
+		var readCall ssa.Value
+		hasHead := false
+		for _, b := range fn.Blocks {
+			for _, ins := range b.Instrs {
+				c, ok := ins.(*ssa.Call)
+				if !ok || c.Common().StaticCallee() != parse || len(c.Common().Args) < 2 {
+					continue
+				}
+				fa, ok := c.Common().Args[1].(*ssa.FieldAddr)
+				if !ok {
+					continue
+				}
+				switch fieldOfAddr(fa) {
+				case fRead:
+					readCall = c
+				case fHead:
+					hasHead = true
+				}
+			}
+		}
+		if readCall == nil || !hasHead {
+			continue
+		}
+		dom := map[string]bool{}
+		pos := ""
+		for _, b := range fn.Blocks {
+			iff, ok := b.Instrs[len(b.Instrs)-1].(*ssa.If)
+			if !ok {
+				continue
+			}
+			sl := &slicer{p: p, fields: map[*types.Var]bool{}, seen: map[sliceKey]bool{}, dataOnly: true}
+			// stop at the ParsePosition call: its internals (the on-disk encoding) are the same for all siblings
+			sl.seen[sliceKey{readCall, nil, 0}] = true
+			sl.walk(iff.Cond, 0, nil, 0)
+			uses := false
+			for k := range sl.seen {
+				if k.v == readCall && sl.steps > 0 {
+					uses = true
+				}
+			}
+			// the condition must actually reach the parsed read position
+			reaches := false
+			var chk func(v ssa.Value, d int) bool
+			chk = func(v ssa.Value, d int) bool {
+				if v == nil || d > 12 {
+					return false
+				}
+				if v == readCall {
+					return true
+				}
+				switch x := v.(type) {
+				case *ssa.BinOp:
+					return chk(x.X, d+1) || chk(x.Y, d+1)
+				case *ssa.UnOp:
+					return chk(x.X, d+1)
+				case *ssa.Alloc:
+					if x.Referrers() != nil {
+						for _, r := range *x.Referrers() {
+							if st, ok := r.(*ssa.Store); ok && st.Addr == ssa.Value(x) && chk(st.Val, d+1) {
+								return true
+							}
+						}
+					}
+					return false
+				case *ssa.Extract:
+					return chk(x.Tuple, d+1)
+				case *ssa.Field:
+					return chk(x.X, d+1)
+				case *ssa.FieldAddr:
+					return chk(x.X, d+1)
+				case *ssa.Convert:
+					return chk(x.X, d+1)
+				case *ssa.Phi:
+					for _, e := range x.Edges {
+						if chk(e, d+1) {
+							return true
+						}
+					}
+				}
+				return false
+			}
+			reaches = chk(iff.Cond, 0)
+			_ = uses
+			if !reaches {
+				continue
+			}
+			pos = p.InstrPos(iff)
+			for f := range sl.fields {
+				switch pqFieldOwner(p, f) {
+				case "position", "cursor", "txCursor", "readState", "buffer", "writeState":
+					dom[pqFieldOwner(p, f)+"."+f.Name()] = true
+				}
+			}
+		}
+		var ds []string
+		for d := range dom {
+			ds = append(ds, d)
+		}
+		sort.Strings(ds)
+		sels = append(sels, sel{fn, strings.Join(ds, ","), pos})
+	}
+	if len(sels) < 2 {
+		rep.Unknown("READ-START-AGREE", "anchor", "", fmt.Sprintf("%d function(s) choose between queuePage.read and queuePage.head (at least two siblings expected: anchor lost)", len(sels)))
+		return
+	}
+	count := map[string]int{}
+	for _, s := range sels {
+		count[s.dom]++
+	}
+	major, best := "", 0
+	for d, c := range count {
+		if c > best || (c == best && d < major) {
+			major, best = d, c
+		}
+	}
+	sort.Slice(sels, func(i, j int) bool { return funcName(sels[i].fn) < funcName(sels[j].fn) })
+	for _, s := range sels {
+		rep.Analysed(funcName(s.fn))
+		key := funcName(s.fn) + "|read-or-head"
+		if s.dom == major {
+			rep.OK("READ-START-AGREE", key, s.pos, "decided by {"+s.dom+"}")
+		} else {
+			rep.Bad("READ-START-AGREE", key, s.pos, "this function chooses between the persisted read position and the head by a condition over {"+s.dom+"}, its "+fmt.Sprint(best)+" sibling(s) by {"+major+"}: for some queue states they start from different events — the counters (Pending/Active) and what a (re)opened Reader delivers / reports as Available disagree, already ACKed events are delivered again")
+		}
+	}
+}
+
+// ---- FLOCK-ACQUIRE (C18): the function that takes the OS file lock keeps what it took ----
+
+type flockAcq struct {
+	kind string // "lock": held iff the returned error is nil; "try": held iff the returned bool is true
+	sym  int
+}
+
+type flockProp struct {
+	acq    []flockAcq
+	stored bool
+}
+
+func (f *flockProp) Key() string {
+	s := fmt.Sprintf("%v|", f.stored)
+	for _, a := range f.acq {
+		s += fmt.Sprintf("%s%d,", a.kind, a.sym)
+	}
+	return s
+}
+func (f *flockProp) Clone() PropState {
+	return &flockProp{acq: append([]flockAcq(nil), f.acq...), stored: f.stored}
+}
+
+type flockPlugin struct {
+	basePlugin
+	n int
+}
+
+func (fp *flockPlugin) OnCall(in *Interp, fs *FState, site ssa.Instruction, callee *ssa.Function, fnv Value, args []Value) (bool, Value) {
+	if callee == nil || callee.Pkg == nil || !strings.HasSuffix(callee.Pkg.Pkg.Path(), "/flock") {
+		return false, nil
+	}
+	st := fs.st.prop.(*flockProp)
+	switch callee.Name() {
+	case "NewFlock", "New":
+		return true, in.nonNil()
+	case "Lock", "RLock":
+		fp.n++
+		r := in.top()
+		st.acq = append(st.acq, flockAcq{"lock", r.(Top).sym})
+		return true, r
+	case "TryLock", "TryRLock":
+		fp.n++
+		r := in.top()
+		if in.trackedBool == nil {
+			in.trackedBool = map[int]bool{}
+		}
+		in.trackedBool[r.(Top).sym] = true
+		st.acq = append(st.acq, flockAcq{"try", r.(Top).sym})
+		return true, TupleV{[]Value{r, r}}
+	case "Unlock", "Close":
+		st.acq = nil
+		return true, in.top()
+	}
+	return true, in.unknown(callee.Signature.Results())
+}
+
+func (fp *flockPlugin) OnStore(in *Interp, fs *FState, instr ssa.Instruction, c *Cell, v Value) {
+	if c.key != "Flock" {
+		return
+	}
+	if _, isNil := v.(NilV); isNil {
+		return
+	}
+	fs.st.prop.(*flockProp).stored = true
+}
+
+func ruleFLOCKACQUIRE(p *Program, rep *Report) {
+	rep.Rule("FLOCK-ACQUIRE", 1, "on every path of osfs.(*File).doLock: a return with a nil error has acquired the OS lock and stored the lock object in the File (so Unlock can release it); a return with an error does not hold an acquired lock that is stored nowhere (abstract interpretation, path-sensitive on the results of Lock / TryLock)")
+	fn := p.Method("internal/vfs/osfs", "File", "doLock")
+	pl := &flockPlugin{}
+	in := newInterp(p, pl)
+	var exits []Exit
+	failed := ""
+	func() {
+		defer func() {
+			if e := recover(); e != nil {
+				failed = fmt.Sprintf("%v", e)
+			}
+		}()
+		recv := PtrV{cell: in.singleton(p.Named("internal/vfs/osfs", "File"))}
+		exits = in.Run(fn, recvArgs(in, fn, recv), newState(&flockProp{}))
+		failed = in.failed
+	}()
+	rep.Analysed(in.enteredNames()...)
+	pos := p.Pos(fn.Pos())
+	if failed != "" || len(exits) == 0 {
+		rep.Unknown("FLOCK-ACQUIRE", "osfs.File.doLock", pos, "analysis did not complete: "+failed)
+		return
+	}
+	if pl.n == 0 {
+		rep.Unknown("FLOCK-ACQUIRE", "osfs.File.doLock", pos, "doLock acquires no flock (anchor lost)")
+		return
+	}
+	var problems []string
+	okExits := 0
+	for _, e := range exits {
+		st := e.st.prop.(*flockProp)
+		held := false
+		for _, a := range st.acq {
+			switch a.kind {
+			case "lock":
+				if e.st.nilF[a.sym] == 1 {
+					held = true
+				}
+			case "try":
+				if b, known := e.st.boolF[a.sym]; known && b {
+					held = true
+				}
+			}
+		}
+		if debugVerbose {
+			fmt.Printf("flock exit err=%d held=%v stored=%v acq=%v nilF=%v boolF=%v ret=%s\n", errOfExit(fn, e), held, st.stored, st.acq, e.st.nilF, e.st.boolF, e.ret.vstr())
+		}
+		switch errOfExit(fn, e) {
+		case 0, 2: // 0: the nil-ness of the returned error value is not known (a package-level error variable)
+			if held && !st.stored {
+				problems = append(problems, "doLock can return (an error) although it has just acquired the OS lock, and the lock object is stored nowhere: the caller believes locking failed, nobody can ever release the lock — the path stays locked until the process exits (a later Open of the same path fails or blocks forever)")
+			}
+		case 1:
+			okExits++
+			if !held || !st.stored {
+				problems = append(problems, "doLock can return success without holding the OS lock / without storing the lock object in the File")
+			}
+		}
+	}
+	if okExits == 0 {
+		problems = append(problems, "doLock has no successful exit")
+	}
+	sort.Strings(problems)
+	problems = uniq(problems)
+	if len(problems) == 0 {
+		rep.OK("FLOCK-ACQUIRE", "osfs.File.doLock", pos, fmt.Sprintf("%d exit class(es): success holds and stores the lock, error exits hold nothing", len(exits)))
+	} else {
+		rep.Bad("FLOCK-ACQUIRE", "osfs.File.doLock|"+strings.Join(problems, "; "), pos, strings.Join(problems, "; "))
+	}
+}
